@@ -931,14 +931,24 @@ pub fn run_c18(ctx: &Ctx) -> i32 {
         }
     }).collect();
     let proofs: Vec<(usize, Proof)> = results.into_iter().flatten().collect();
-    // cross verification: B rejects A's proof although it is cryptographically valid
+    // cross verification: B rejects A's proof although it is cryptographically valid.
+    // One aggregator per address is built once (each construction rebuilds and pins the canonical circuits).
+    let aggs: Vec<Option<PublicBatchAggregator>> = (0..n_addr)
+        .into_par_iter()
+        .map(|bi| {
+            if ctx.over_budget() {
+                return None;
+            }
+            let addr_b = BytesDigest::try_from(d4_bytes(&addrs[bi])).ok()?;
+            PublicBatchAggregator::new(&bins.dir, addr_b).ok()
+        })
+        .collect();
     for (ai, proof) in proofs.iter() {
         for bi in 0..n_addr {
             if bi == *ai || addrs[bi] == addrs[*ai] {
                 continue;
             }
-            let Ok(addr_b) = BytesDigest::try_from(d4_bytes(&addrs[bi])) else { continue };
-            let Ok(agg_b) = PublicBatchAggregator::new(&bins.dir, addr_b) else { continue };
+            let Some(agg_b) = aggs[bi].as_ref() else { continue };
             rep.eval();
             rep.nontrivial(&("cross", ai, bi));
             match guarded(|| agg_b.verify(proof.clone())) {
@@ -946,9 +956,6 @@ pub fn run_c18(ctx: &Ctx) -> i32 {
                 Ok(Ok(())) => rep.violation("address / proof bound to another address accepted", "an aggregator accepted a valid proof that exposes a different aggregator address",
                     json!({"proof_address": addrs[*ai].iter().map(|x| u(*x)).collect::<Vec<_>>(), "verifier_address": addrs[bi].iter().map(|x| u(*x)).collect::<Vec<_>>()})),
                 Err(p) => rep.violation("address / verify panics", &p, json!({})),
-            }
-            if !ctx.tier.pick(false, true) && bi > *ai + 2 {
-                break;
             }
         }
     }
@@ -971,12 +978,28 @@ pub fn run_c18(ctx: &Ctx) -> i32 {
         let mut d = a;
         d[31] ^= 0x01;
         neighbours.push(d);
-        for nb in neighbours {
-            let Ok(addr_b) = BytesDigest::try_from(nb) else { continue };
-            if nb == a {
-                continue;
+        // also: same low half / same high half (a comparison that covers only part of the 32 bytes)
+        let mut e = a;
+        for k in 16..32 {
+            e[k] ^= 0x11;
+        }
+        if e[24..32] == [0xffu8; 8] { e[24] = 0; }
+        neighbours.push(e);
+        let mut g = a;
+        for k in 0..16 {
+            g[k] ^= 0x11;
+        }
+        neighbours.push(g);
+        neighbours.par_iter().for_each(|nb| {
+            let nb = *nb;
+            if ctx.over_budget() {
+                return;
             }
-            let Ok(agg_b) = PublicBatchAggregator::new(&bins.dir, addr_b) else { continue };
+            let Ok(addr_b) = BytesDigest::try_from(nb) else { return };
+            if nb == a {
+                return;
+            }
+            let Ok(agg_b) = PublicBatchAggregator::new(&bins.dir, addr_b) else { return };
             rep.eval();
             rep.nontrivial(&("neighbour", ai, nb));
             match guarded(|| agg_b.verify(proof.clone())) {
@@ -985,7 +1008,7 @@ pub fn run_c18(ctx: &Ctx) -> i32 {
                     json!({"proof_address": hex::encode(a), "verifier_address": hex::encode(nb)})),
                 Err(p) => rep.violation("address / verify panics", &p, json!({})),
             }
-        }
+        });
     }
     rep.add("aggregated_proofs", proofs.len() as u64);
     if let Some((ai, p)) = proofs.first() {
